@@ -452,3 +452,20 @@ def input_capable_driven(O):
     from . import C06, dri
     R = dri.Rep(dict(FACTS), B.protocol_battery(), B.protocol_judge)
     C06.build_indices(dri.WithRep(O, R), "Bidirectional", R)
+
+
+@obligation("C02/no-state-outside-the-iterator", profiles=("dev",),
+            desc="TestCase has no interior mutability and the crate keeps no mutable global state: every iterator makes its own constructor call and its own calls per row "
+                 "(type-level facts read from the MIR and the struct definition)")
+def no_state_outside(O):
+    from . import C15, dri
+    C15.no_shared_state_core(O, dri.Rep(dict(FACTS), B.protocol_battery(), B.protocol_judge))
+
+
+@obligation("C02/glue-stores-nothing", profiles=("dev",),
+            desc="next / handle_io store nothing into the iterator themselves and call nothing but get_row / handle_io / "
+                 "into_data_row resp. the driver, set_outputs and extract_output_values, on every path: no cache of answers, "
+                 "no skipped call, nothing remembered between rows outside those functions")
+def glue_stores_nothing(O):
+    from . import dri
+    dri.glue_keeps_state(O, dri.Rep(dict(FACTS), B.protocol_battery(), B.protocol_judge))
